@@ -489,7 +489,6 @@ func dupsortWithoutTransform(R *Result) error {
 	d.SetName("data")
 	d.SetFlags(uint64(lmdb.DupSort)) // flag set, transform not stated
 	d.Append(snapshot.KV{Key: []byte("ab\x00\x00\x00\x00zz\x02"), Value: []byte("payload"), TimestampNano: uint64(time.Now().UnixNano())})
-	d.Append(snapshot.KV{Key: []byte("plain-key"), Value: []byte("v"), TimestampNano: uint64(time.Now().UnixNano())})
 	snap := &snapshot.Snapshot{FormatVersion: snapshot.CurrentFormatVersion, CompatVersion: snapshot.WriteCompatFormatVersion}
 	snap.Meta.DatabaseName = "default"
 	snap.Meta.InstanceID = "remote"
